@@ -3,7 +3,7 @@
     instantiated with the peek-buffer size regenerated from
     sniproxy/tls_hello_conn.go (Gen/HelloConsts.v, obligations in
     Sni/HelloGen.v). *)
-From Coq Require Import List NArith Bool String.
+From Coq Require Import List NArith Bool.
 From Verif Require Import Lib.Bytes Sni.Wire Sni.Hello Sni.HelloProofs Sni.HelloGen
   Gen.HelloConsts.
 Import ListNotations.
